@@ -1,6 +1,8 @@
 package main
 
 import (
+	"time"
+	"bytes"
 	"errors"
 	"fmt"
 	"io"
@@ -254,6 +256,48 @@ func runC05(c *runCtx) {
 				if err == nil || m == nil || m.String() != "application/octet-stream" || m.Parent() != nil || m.Extension() != "" {
 					c.propfail(c.errProp(), fmt.Sprintf("DetectFile on %s at limit %d: expected exactly application/octet-stream together with the error, got %v (parent %v) / err=%v", filepath.Base(p), l, m, parentOf(m), err))
 				}
+			}
+		}
+		mimetype.SetLimit(3072)
+	}
+	// every input through a pipe (an *os.File that is not a regular file), written in two parts
+	for i, x := range inputs {
+		if len(x) < 2 || !c.mine(x, []byte("pipe")) {
+			continue
+		}
+		for _, l := range []uint32{3072, 0, uint32(len(x))} {
+			cut := 1 + (i*7)%(len(x)-1)
+			mimetype.SetLimit(l)
+			m, err, ok := pipeDetect(x, cut, 3*time.Millisecond)
+			if !ok {
+				continue
+			}
+			d, _ := detectAt(x, l)
+			c.stats.note("pipe", []byte(fmt.Sprintf("pipe:%d:%s", l, hx(x))), len(x), true)
+			if err != nil || m == nil || d == nil || chainFull(m) != chainFull(d) {
+				c.propfail("C05", fmt.Sprintf("DetectReader over a pipe written in two parts (%d + %d bytes) disagrees with Detect: limit=%d err=%v pipe=%s bytes=%s", cut, len(x)-cut, l, err, chainOf(m), chainOf(d)))
+			}
+		}
+	}
+	mimetype.SetLimit(3072)
+	// limits and inputs beyond a megabyte: the three entry points still examine the same header
+	if c.shard == 0 {
+		var js bytes.Buffer
+		js.WriteString("{\"k\":[")
+		for js.Len() < 3<<19 {
+			js.WriteString("123456789,")
+		}
+		js.WriteString("0]}")
+		txt := bytes.Repeat([]byte("plain text line, nothing else\n"), 1<<16)
+		late := append(append([]byte{}, txt[:1<<20+4096]...), 0x00, 0x01, 0x02)
+		late = append(late, txt[:1<<18]...)
+		for _, big := range []struct {
+			kind string
+			x    []byte
+		}{{"big-json", js.Bytes()}, {"big-text", txt}, {"big-text-late-binary", late}} {
+			for _, l := range []uint32{2 << 20, 1572928, 1 << 20, 1<<20 + 1, 0} {
+				c.stats.note("big", []byte(fmt.Sprintf("%s:%d", big.kind, l)), len(big.x), true)
+				c.agree(big.kind, big.x, l, true)
 			}
 		}
 		mimetype.SetLimit(3072)
